@@ -18,6 +18,8 @@ FRAMES = [   # expression skeletons; "@" marks option slots
     ["!", "@"], ["@", "-true", "@"], ["@", "-name x", "@", "@"], ["-size +1k", "@", ",", "-print"],
     # an option glued to the token that follows it (no blank before ')' or ','), as every other primary may be written
     ["(", "-name x", "@)"], ["-false", "@,", "-true"], ["(", "@)", "-o", "-print"],
+    # ... and glued to the token before it
+    ["-name x", "(@", "-o", "-print", ")"], ["-name x", "!@"], ["-false", ",@"],
 ]
 
 
@@ -87,11 +89,22 @@ def run(ctx, rep, tier):
         for fi, frame in enumerate(frames_l):
             spec, ref_spec, assume, slots = [], [], [], []
             leading = True
+            def gap():
+                # words are separated by one blank character of any kind (space, tab, newline, CR)
+                c = sym_char()
+                assume.append(z3.Or(c == 32, c == 9, c == 10, c == 13))
+                return c
             for wi, w in enumerate(frame):
+                pre = ""
+                if len(w) > 1 and w.endswith("@") and w[0] in "(!,":
+                    pre, w = w[:-1], "@"
+                    spec.append(pre)
+                    ref_spec.append(pre)
+                    leading = False
                 if w.startswith("@"):
                     glue = w[1:]
                     ch, a, sel, val = slot("%d_%d_%d" % (with_limits, fi, wi), with_limits, tight=bool(glue))
-                    spec += ch + ([glue, " "] if glue else [" "])
+                    spec += ch + ([glue, gap()] if glue else [gap()])
                     assume += a
                     slots.append((sel, val, leading))
                     # reference input: -true in inner position; nothing (blanks) in the leading run
@@ -100,7 +113,7 @@ def run(ctx, rep, tier):
                         ref_spec.append(glue)
                 else:
                     leading = False
-                    spec += [w, " "]
+                    spec += [w, gap()]
                     ref_spec.append(w)
             r = B.parse(spec, extra_assume=assume)
             I = r.I
